@@ -77,4 +77,28 @@ theorem stateVal_ne {s s' : ThState} (h1 : s' ≠ .unknown) (h2 : s' ≠ s) : st
 theorem prvValue_state {s : ThState} (h : s ≠ .unknown) : prvValue prvSkipDup (stateVal s) = .ok s.code := by
   cases s <;> first | exact absurd rfl h | rfl
 
+/-- the three raw records of a CPU row are part of the step's records -/
+theorem records_cpu {old new : Emu} {rs : List PrvRec} (h : records old new = .ok rs) {c : Cpu}
+    (hc : c ∈ new.cpus) :
+    (∃ r, emitRaw 1 (c.gindex + 1) prvCpuPid 0 c.chPid = .ok r ∧ ∀ y ∈ r, y ∈ rs) ∧
+    (∃ r, emitRaw 1 (c.gindex + 1) prvCpuTid 0 c.chTid = .ok r ∧ ∀ y ∈ r, y ∈ rs) ∧
+    (∃ r, emitRaw 1 (c.gindex + 1) prvCpuNrun prvZero c.chNrun = .ok r ∧ ∀ y ∈ r, y ∈ rs) := by
+  unfold records at h
+  obtain ⟨r, hr, hsub⟩ := collect_ok h
+    (cpuRecords ((allSpecs.filter fun s => new.enabled.contains s.char) ++ new.extra) old new
+      (old.cpus.getD c.gindex c) c)
+    (List.mem_append_right _ (List.mem_map.mpr ⟨c, hc, rfl⟩))
+  unfold cpuRecords at hr
+  have h1 := collect_ok hr (emitRaw 1 (c.gindex + 1) prvCpuPid 0 c.chPid) (List.mem_append_left _ (by simp))
+  have h2 := collect_ok hr (emitRaw 1 (c.gindex + 1) prvCpuTid 0 c.chTid) (List.mem_append_left _ (by simp))
+  have h3 := collect_ok hr (emitRaw 1 (c.gindex + 1) prvCpuNrun prvZero c.chNrun) (List.mem_append_left _ (by simp))
+  obtain ⟨r1, e1, s1⟩ := h1
+  obtain ⟨r2, e2, s2⟩ := h2
+  obtain ⟨r3, e3, s3⟩ := h3
+  exact ⟨⟨r1, e1, fun y hy => hsub y (s1 y hy)⟩, ⟨r2, e2, fun y hy => hsub y (s2 y hy)⟩,
+    ⟨r3, e3, fun y hy => hsub y (s3 y hy)⟩⟩
+
+theorem Chan.flush_cur (c : Chan) : c.flush.cur = c.cur := by
+  unfold Chan.flush; split <;> rfl
+
 end Ovni.Emu
